@@ -491,30 +491,6 @@ func (e *Engine) registerModels() {
 		}
 		return Tuple{in.tt.BV(64, uint64(int64(n))), Iface{}}
 	}
-	m["strconv.ParseUint"] = func(in *Interp, fn *ssa.Function, a []Value) Value {
-		s := a[0].(Str)
-		c, ok := s.concrete()
-		if !ok {
-			c = in.concretizeStr(s)
-		}
-		n, err := strconv.ParseUint(c, int(in.concreteInt(a[1], "base")), int(in.concreteInt(a[2], "bitSize")))
-		if err != nil {
-			return Tuple{in.tt.BV(64, n), in.newError(in.strConst(err.Error()))}
-		}
-		return Tuple{in.tt.BV(64, n), Iface{}}
-	}
-	m["strconv.ParseInt"] = func(in *Interp, fn *ssa.Function, a []Value) Value {
-		s := a[0].(Str)
-		c, ok := s.concrete()
-		if !ok {
-			c = in.concretizeStr(s)
-		}
-		n, err := strconv.ParseInt(c, int(in.concreteInt(a[1], "base")), int(in.concreteInt(a[2], "bitSize")))
-		if err != nil {
-			return Tuple{in.tt.BV(64, uint64(n)), in.newError(in.strConst(err.Error()))}
-		}
-		return Tuple{in.tt.BV(64, uint64(n)), Iface{}}
-	}
 	m["strings.Split"] = func(in *Interp, fn *ssa.Function, a []Value) Value {
 		s := a[0].(Str)
 		sep, ok := a[1].(Str).concrete()
@@ -693,6 +669,7 @@ func (e *Engine) registerModels() {
 	e.registerIntrinsics()
 	e.registerCodecModels()
 	e.registerCLIModels()
+	e.registerGenericModels()
 }
 
 // symbolicSort sorts a slice of hash codes with a compare-exchange network: the real
